@@ -338,6 +338,75 @@ def _forward_local_refs(jb):
     return n
 
 
+def _thread_bool_joins(jb):
+    """After a bool-returning helper was expanded, its `return a && !b` arrives in the caller as several blocks that assign the result
+    (`r = const false`, `r = !x`) and meet in a join that (after copying the result into the caller's variable) immediately switches on it.
+    Control dependence then shows only "r was true".  Jump threading: send each assigning block straight to the switch target its value
+    selects (`r = const c` -> goto T_c; `r = !x` -> switch x with the targets exchanged), so the caller's code is controlled by the helper's
+    own tests again, as it was before the extraction."""
+    blocks = jb["blocks"]
+    n = 0
+
+    def copy_of(st, sw):
+        """st == [sw = use(move/copy r)] -> r"""
+        if len(st) == 1 and st[0].get("k") == "assign" and _is_place(st[0].get("pl")) and not st[0]["pl"]["p"] and st[0]["pl"]["l"] == sw \
+                and (st[0].get("rv") or {}).get("k") == "use" and _is_place(((st[0]["rv"].get("a") or {}).get("pl"))) and not st[0]["rv"]["a"]["pl"]["p"]:
+            return st[0]["rv"]["a"]["pl"]["l"]
+        return None
+    for ji, J in enumerate(blocks):
+        t = J.get("term") or {}
+        if J.get("cleanup") or t.get("k") != "switch" or t.get("opty") != "bool":
+            continue
+        op = t.get("op") or {}
+        if not _is_place(op.get("pl")) or op["pl"]["p"]:
+            continue
+        sw = op["pl"]["l"]
+        tf = {0: None, 1: t.get("otherwise")}
+        for v, tgt in t.get("targets", []):
+            if v == 0:
+                tf[0] = tgt
+            else:
+                tf[1] = tgt
+        if tf[0] is None:
+            tf[0] = t.get("otherwise")
+        if tf[0] is None or tf[1] is None:
+            continue
+        # where the assigning blocks arrive: the join itself (empty, or holding the copy), or a copy block in front of an empty join
+        entries = []
+        if not J["stmts"]:
+            entries.append((ji, [], sw))
+            for ci, C in enumerate(blocks):
+                ct = C.get("term") or {}
+                if C is not J and not C.get("cleanup") and ct.get("k") == "goto" and ct.get("target") == ji:
+                    r = copy_of(C["stmts"], sw)
+                    if r is not None:
+                        entries.append((ci, C["stmts"], r))
+        else:
+            r = copy_of(J["stmts"], sw)
+            if r is not None:
+                entries.append((ji, J["stmts"], r))
+        for ei, est, r in entries:
+            for P in blocks:
+                pt = P.get("term") or {}
+                if P is blocks[ei] or P.get("cleanup") or pt.get("k") != "goto" or pt.get("target") != ei or not P["stmts"]:
+                    continue
+                last = P["stmts"][-1]
+                if not (last.get("k") == "assign" and _is_place(last.get("pl")) and not last["pl"]["p"] and last["pl"]["l"] == r):
+                    continue
+                rv = last.get("rv") or {}
+                if rv.get("k") == "use" and (rv.get("a") or {}).get("k") == "const" and rv["a"].get("scalar") in (0, 1):
+                    P["stmts"].extend(copy.deepcopy(est))
+                    pt["target"] = tf[1 if rv["a"]["scalar"] else 0]
+                    n += 1
+                elif rv.get("k") == "un" and rv.get("op") == "Not" and _is_place((rv.get("a") or {}).get("pl")) and not rv["a"]["pl"]["p"]:
+                    x = rv["a"]["pl"]["l"]
+                    P["stmts"].extend(copy.deepcopy(est))
+                    P["term"] = {"k": "switch", "op": {"k": "copy", "pl": {"l": x, "p": []}}, "opty": "bool", "targets": [[0, tf[1]]], "otherwise": tf[0], "loc": pt.get("loc"), "exp": pt.get("exp", [])}
+                    rv["a"]["k"] = "copy"  # `move x` would leave x moved-from for the switch
+                    n += 1
+    return n
+
+
 def inline_new_helpers(j, pinned=None, config="default"):
     """j: loaded fact base (dict).  Returns a report {helper: [callers...]} ; mutates j['bodies']"""
     if pinned is None:
@@ -394,5 +463,8 @@ def inline_new_helpers(j, pinned=None, config="default"):
     for n in {c for cs in report.values() for c in cs}:
         if n in bodies:
             _forward_local_refs(bodies[n])
+            for _ in range(4):
+                if not _thread_bool_joins(bodies[n]):
+                    break
     j["inlined_helpers"] = {h: sorted(set(c)) for h, c in report.items()}
     return report
